@@ -64,7 +64,7 @@ def collect(prop, results):
     obls = []
     problems = []
     for r in results:
-        if r.status == 'inconclusive' or r.gen is None:
+        if r.gen is None or not r.functions:
             continue
         gen = r.gen
         tf = verus.template_functions(gen)
@@ -96,9 +96,14 @@ def collect(prop, results):
             o.detail = 'function %s not in verus function breakdown' % fname
             problems.append('registry mismatch: %s (%s) was not checked by verus' % (o.id, fname))
             continue
-        errs = [e for e in r.errors if e['fn'] == o.fn]
-        if fr['success'] and not errs:
+        errs = [e for e in r.errors if e['fn'] == o.fn and not e.get('resource')]
+        undecided = [e for e in r.errors if e['fn'] == o.fn and e.get('resource')]
+        if fr['success'] and not errs and not undecided:
             o.status = 'discharged'
+            continue
+        if not errs and undecided:
+            o.status = 'unknown'
+            o.detail = 'solver resource limit while checking %s' % fname
             continue
         # the function has errors: which obligations do they hit?
         hit = False
@@ -195,6 +200,9 @@ def run(prop, tier, seed, units, work, t0):
     depres = allres[len(units):]
     inconclusive = [r for r in results if r.status == 'inconclusive']
     obls, problems = collect(prop, results)
+    for r in results:
+        for why in getattr(r, 'partial', []):
+            problems.append('unit %s: %s' % (r.unit, why))
     for r in depres:
         # contracts assumed here (include-assumed) are discharged in the unit they come from
         if r.status != 'ok':
